@@ -24,6 +24,14 @@ CLAIMED = {
              "SocketUnreader; real-scale streams with delimiters at 8190..8193; TLC judges equality of observations per stream.",
         design_ref="DESIGN.md 4 C06, 9",
         technique="TLA+ model checking of all segmentations + TLC-validated differential traces of the real parser"),
+    "C12": dict(
+        text="TLC checks OverLimitRejected / CompleteOkDelivered (within limits => accepted) / BufferBounded on "
+             "specs/HttpParse.tla over padded-line, many-field and never-ending stream families with small limits x all "
+             "segmentations; the real parser is run with limit settings {0, small, default, max, out-of-range} on inputs at, "
+             "just under and just over each limit and on lazy endless sources in each buffering phase (request line, header "
+             "block, chunk-size line, trailer block); TLC judges every record against specs/HttpLimitsTrace.tla.",
+        design_ref="DESIGN.md 4 C12, 9",
+        technique="TLA+ model checking of limit/buffer invariants + TLC-validated boundary and endless-stream records from the real parser"),
 }
 
 NOT_YET = {
